@@ -42,6 +42,9 @@ S_LEN_UNIT_OR_NONE = st.one_of(st.none(), S_LEN_UNIT)
 S_BOX_UNIT = st.one_of(st.just('default'), S_LEN_UNIT, S_LEN_UNIT)
 S_PRESSURE_OR_NONE = st.one_of(st.none(), st.sampled_from(PRESSURE_UNITS), st.sampled_from(PRESSURE_UNITS))
 S_BOOL = st.booleans()
+_S_0_3 = st.integers(0, 3)
+_S_0_2 = st.integers(0, 2)
+_S_0_4 = st.integers(0, 4)
 
 # ----------------------------------------------------------------------------- working-unit configurations
 _NAMED = {'length': ['angstrom', 'nm', 'm', 'cm', 'aBohr'], 'mass': ['amu', 'kg', 'g'], 'time': ['ps', 's', 'fs'],
@@ -90,6 +93,148 @@ _S_REL = gens.nice(-1.0, 2.0, 4)
 _S_SREL = gens.nice(-2.0, 3.0, 4)
 _S_POS = gens.nice(-50.0, 50.0, 4)
 
+# ----------------------------------------------------------------------------- structured and almost-structured cells
+# (classes E and G of the cross-pollination round: see the header of checks/c10.py)
+# cell['sym'] = {'m','p','s'}: after everything gens.cell_vects does, exactly (products with 0 / +-1 only): one of the 48 signed
+# permutations of the Cartesian axes (numbers 0..7 diagonal: they keep the zeros above the diagonal), one of the 6 renamings of
+# the cell vectors, one of the 8 sign patterns of the cell vectors.  m < 8 and p = 0 gives lower-triangular cells with negative
+# entries on the diagonal.  cell['tiny']: tilt / box length = sign * 10**e, e in -12 .. -3 (Box's documented clean-up zeroes
+# components up to 1e-9 of the largest: ratios within 10 % of that rung are moved off it).
+SIGNS8 = [(a, b, c) for a in (1.0, -1.0) for b in (1.0, -1.0) for c in (1.0, -1.0)]
+PERMS6 = [(0, 1, 2), (1, 0, 2), (0, 2, 1), (2, 1, 0), (1, 2, 0), (2, 0, 1)]
+CLEAN_RUNG = 1e-9
+
+
+def _signed_perms():
+    import numpy as np
+    out = []
+    for p in PERMS6:                      # identity permutation first: numbers 0..7 are diagonal
+        for sg in SIGNS8:
+            M = np.zeros((3, 3))
+            for i in range(3):
+                M[i, p[i]] = sg[i]
+            out.append(M)
+    return out
+
+
+SIGNED_PERMS = _signed_perms()
+
+
+def cell_vects10(c):
+    """gens.cell_vects followed by the exact operation c['sym']"""
+    import numpy as np
+    V = gens.cell_vects(c)
+    sym = c.get('sym')
+    if sym:
+        V = V @ SIGNED_PERMS[int(sym['m']) % 48].T
+        V = V[list(PERMS6[int(sym['p']) % 6])]
+        V = V * np.array(SIGNS8[int(sym['s']) % 8])[:, None]
+        V = V + 0.0                       # no negative zeros
+    return V
+
+
+def cell_labels10(c):
+    import numpy as np
+    labs = gens.cell_labels(c)
+    labs.discard('lefthanded')
+    V = cell_vects10(c)
+    if np.linalg.det(V / np.abs(V).max()) < 0:
+        labs.add('lefthanded')
+    sym = c.get('sym')
+    if sym and (int(sym['m']) % 48 or int(sym['p']) % 6 or int(sym['s']) % 8):
+        labs.add('sym')
+        labs.add('sym_diag' if (int(sym['m']) % 48 < 8 and int(sym['p']) % 6 == 0) else 'sym_perm')
+    if V[0, 1] == 0.0 and V[0, 2] == 0.0 and V[1, 2] == 0.0 and (V[0, 0] < 0 or V[1, 1] < 0 or V[2, 2] < 0):
+        labs.add('lowertri_neg')
+    if c.get('tiny'):
+        labs.add('tiny_tilt')
+        vmax = max(abs(c[k]) for k in ('lx', 'ly', 'lz', 'xy', 'xz', 'yz'))
+        r = [abs(c[k]) / vmax for k in ('xy', 'xz', 'yz') if c[k] and abs(c[k]) / vmax < 2e-3]
+        if any(x <= CLEAN_RUNG for x in r):
+            labs.add('tiny_cleaned')
+        if any(CLEAN_RUNG < x <= 1e-5 for x in r):
+            labs.add('tiny_1e-9_1e-5')
+        if any(1e-5 < x for x in r):
+            labs.add('tiny_1e-5_1e-3')
+    return labs
+
+
+_TINY_ONE = st.tuples(st.sampled_from((0, 1, 2, 2, 2)), st.floats(-12.0, -3.0, allow_nan=False), st.sampled_from((-1.0, 1.0)))
+_TINY3 = st.tuples(_TINY_ONE, _TINY_ONE, _TINY_ONE)
+_S_0_9 = st.integers(0, 9)
+_S_0_7 = st.integers(0, 7)
+_S_0_5 = st.integers(0, 5)
+_S_0_47 = st.integers(0, 47)
+
+
+def apply_tiny(c, tt):
+    """cell dict with tiny tilts put in: per tilt factor (mode, exponent, sign); mode 0 keeps the cell's value, 1 sets zero,
+    2 sets sign * 10**exponent * length; at least one factor is made tiny"""
+    c = dict(c)
+    tt = [list(t) for t in tt]
+    if not any(t[0] == 2 for t in tt):
+        tt[int(abs(tt[0][1]) * 7) % 3][0] = 2
+    for key, lk, (mode, ex, sg) in zip(('xy', 'xz', 'yz'), ('lx', 'lx', 'ly'), tt):
+        if mode == 1:
+            c[key] = 0.0
+        elif mode == 2:
+            c[key] = sg * 10.0 ** ex * c[lk]
+    vmax = max(abs(c[k]) for k in ('lx', 'ly', 'lz', 'xy', 'xz', 'yz'))
+    for key in ('xy', 'xz', 'yz'):
+        r = abs(c[key]) / vmax
+        if 0.9 * CLEAN_RUNG < r < 1.1 * CLEAN_RUNG:
+            c[key] = c[key] * 2.0
+    c['tiny'] = True
+    return c
+
+
+def _structure(draw, c):
+    """c as drawn (6 in 10), with tiny tilts (2 in 10, half of them without a generic rotation, a quarter also a diagonal image), as
+    an exact diagonal image (1 in 10: lower triangular, any signs) or as any exact signed axis permutation with renamed vectors
+    (1 in 10)"""
+    j = draw(_S_0_9)
+    if j < 6:
+        return c
+    if j < 8:
+        c = apply_tiny(c, draw(_TINY3))
+        if draw(S_BOOL):
+            c['rot'] = None
+        if draw(_S_0_3) == 0:
+            c['sym'] = {'m': draw(_S_0_7), 'p': 0, 's': draw(_S_0_7)}
+        return c
+    c = dict(c)
+    if j < 9:
+        m, p, k = draw(_S_0_7), 0, draw(_S_0_7)
+        if m == 0 and k == 0:
+            k = 6
+        c['rot'] = None
+    else:
+        m, p, k = draw(_S_0_47), draw(_S_0_5), draw(_S_0_7)
+        if draw(_S_0_3):
+            c['rot'] = None
+    c['sym'] = {'m': m, 'p': p, 's': k}
+    return c
+
+
+_S_CELL_LH = gens.cells(lefthanded=True)
+_S_CELL_LH_SCALED = gens.cells(lefthanded=True, scaled=True)
+
+
+@st.composite
+def cells10(draw, scaled=False):
+    return _structure(draw, draw(_S_CELL_LH_SCALED if scaled else _S_CELL_LH))
+
+
+_S_CELL10 = cells10()
+_S_CELL10_SCALED = cells10(scaled=True)
+
+# relative coordinates: generic, almost on a face / almost integer / almost half (1e-12 .. 1e-3 away), exactly on it
+_S_NEAR = st.builds(lambda k, e, sg: k + sg * 10.0 ** -e, st.sampled_from([0.0, 1.0, 1.0, 0.5, -1.0, 2.0]), st.integers(3, 12),
+                    st.sampled_from([-1.0, 1.0]))
+_S_EXACT = st.sampled_from([0.0, 0.5, 1.0, 0.25, 0.75, -0.5, 1.5, -1.0, 2.0])
+_S_REL10 = st.one_of(_S_REL, _S_REL, _S_REL, _S_NEAR, _S_EXACT)
+_S_SREL10 = st.one_of(_S_SREL, _S_SREL, _S_SREL, _S_NEAR, _S_EXACT)
+
 # ----------------------------------------------------------------------------- numbers
 _MAG = st.sampled_from([1.0, 1.0, 1.0, 1.0, 1e-3, 1e3, 1e-12, 1e9, 1e-20, 1e20])
 _F = st.floats(min_value=-1000.0, max_value=1000.0, allow_nan=False, allow_infinity=False,
@@ -100,8 +245,6 @@ _I = st.one_of(st.integers(-1000, 1000), st.integers(-1000, 1000), st.integers(-
 # (DataModelDict turns '12', '1e3', 'inf', 'nan', 'True', '' ... into numbers/constants: its limitation, not atomman's)
 _S = st.builds(lambda a, b: a + b, st.sampled_from(list('ABCDEGHKLMOPRSUVWXYZ')),
                st.text(alphabet='abcdeghklmoprsuvwxyz0123456789_-+.', min_size=0, max_size=6))
-_S_0_3 = st.integers(0, 3)
-_S_0_2 = st.integers(0, 2)
 _S_KEY = st.integers(0, 10 ** 6)
 _S_ELEM = st.sampled_from(['Al', 'Cu', 'Fe', 'O', 'H', 'Ni', 'Si', 'U', 'Al-fcc', 'Cu_2'])
 
@@ -126,10 +269,58 @@ def _scaled(v, mag):
     return [_scaled(x, mag) for x in v] if isinstance(v, list) else v * mag
 
 
+def _unflatten(flat, shape, i=0):
+    if not shape:
+        return flat[i]
+    step = 1
+    for k in shape[1:]:
+        step *= k
+    return [_unflatten(flat, shape[1:], i + j * step) for j in range(shape[0])]
+
+
+# class F: one array whose elements span 8 and more decades (mantissa x 10**k, k drawn per element between lo and hi, both ends present)
+_DEC_M = gens.nice(1.0, 9.999, 3)
+_DEC_LO = st.sampled_from([-10, -9, -8, -8, -6, -4])
+_DEC_HI = st.sampled_from([0, 1, 2, 4, 6, 8])
+_SIGN = st.sampled_from([1.0, 1.0, -1.0])
+
+
+def _decades(draw, shape):
+    n = 1
+    for k in shape:
+        n *= k
+    lo, hi = draw(_DEC_LO), draw(_DEC_HI)
+    ks = [draw(_si(lo, hi)) for _ in range(n)]
+    ks[draw(_si(0, n - 1))] = lo
+    ks[draw(_si(0, n - 1))] = hi
+    return _unflatten([draw(_SIGN) * draw(_DEC_M) * 10.0 ** k for k in ks], list(shape))
+
+
 def _floats(draw, shape):
-    if draw(_S_0_3) == 0:
+    j = draw(_S_0_4)
+    if j == 0:
         return _nested(draw, shape, _FN)
+    if j == 1 and shape:
+        return _decades(draw, shape)
     return _scaled(_nested(draw, shape, _F), draw(_MAG))
+
+
+# class C: storage dtypes other than float64 / int64 (the oracle casts the working-unit numbers; see c10.to_storage)
+FLOAT_DT = ('f4', 'f4', 'f2', '>f8', '>f4')
+INT_DT = ('i1', 'i2', 'i4', 'u1', 'u2', 'u4', 'u8', '>i2', '>i4', '>i8', 'bool')
+# u8 stops at the int64 maximum: numpy itself reads a list that holds 2**63 and a smaller number back as float64
+INT_RANGE = {'i1': (-2 ** 7, 2 ** 7 - 1), 'i2': (-2 ** 15, 2 ** 15 - 1), 'i4': (-2 ** 31, 2 ** 31 - 1), 'u1': (0, 2 ** 8 - 1),
+             'u2': (0, 2 ** 16 - 1), 'u4': (0, 2 ** 32 - 1), 'u8': (0, 2 ** 63 - 1), '>i2': (-2 ** 15, 2 ** 15 - 1),
+             '>i4': (-2 ** 31, 2 ** 31 - 1), '>i8': (-2 ** 63, 2 ** 63 - 1), 'bool': (0, 1)}
+_FD = st.integers(-2048, 2048).map(lambda k: k / 16.0)          # exactly representable in float16
+
+
+@functools.lru_cache(maxsize=None)
+def _int_dt(dt):
+    lo, hi = INT_RANGE[dt]
+    if dt == 'bool':
+        return st.integers(0, 1)
+    return st.one_of(st.integers(lo, hi), st.integers(max(lo, -100), min(hi, 100)), st.sampled_from([lo, hi, lo + 1, hi - 1, 0, 1]))
 
 
 # shapes of rank 0-4 (lengths >= 1); asymmetric ones catch reversed/transposed reshapes
@@ -151,13 +342,21 @@ def value_cases(draw):
     shape = draw(_S_SHAPE)
     kind = draw(_sf(tuple('ffffffii')))
     unit = draw(S_UNIT_OR_NONE)
-    v = _floats(draw, shape) if kind == 'f' else _nested(draw, shape, _I)
+    dt = None
+    if draw(_S_0_3) == 0 or (kind == 'i' and draw(S_BOOL)):
+        dt = draw(_sf(FLOAT_DT if kind == 'f' else INT_DT))
+    if kind == 'f':
+        v = _nested(draw, shape, _FD) if (dt in ('f2', 'f4', '>f4') and draw(S_BOOL)) else _floats(draw, shape)
+        if dt == 'f2':
+            unit = None                 # numpy divides a float16 array by a Python float in float16: most unit factors are not float16 numbers
+    else:
+        v = _nested(draw, shape, _int_dt(dt) if dt else _I)
     err = None
     if kind == 'f' and draw(_S_0_3) == 0:
         err = _nested(draw, shape, _S_ERR)
     w, r = draw(S_CFG_PAIR)
-    return {'shape': shape, 'kind': kind, 'unit': unit, 'v': v, 'error': err,
-            'form': draw(_sf(('np', 'np', 'np0d', 'py',))), 'layout': draw(S_LAYOUT), 'elayout': draw(S_LAYOUT),
+    return {'shape': shape, 'kind': kind, 'unit': unit, 'v': v, 'error': err, 'dtype': dt, 'ro': draw(S_BOOL), 'cm': draw(S_BOOL),
+            'form': draw(_sf(('np', 'np', 'np', 'np0d', 'py', 'tuple',))), 'layout': draw(S_LAYOUT), 'elayout': draw(S_LAYOUT),
             'enc': draw(S_ENC), 'cfgW': w, 'cfgR': r}
 
 
@@ -174,16 +373,16 @@ _S_NPTS = st.sampled_from([1, 2, 3, 4])
 @st.composite
 def box_cases(draw):
     w, r = draw(S_CFG_PAIR)
-    cell = draw(_S_CELL_SCALED)
+    cell = draw(_S_CELL10_SCALED)
     ctor = draw(_S_CTOR)
     prior = None
     if not ctor:
-        pc = draw(_S_CELL_SCALED)
+        pc = draw(_S_CELL10_SCALED)
         host = draw(S_BOOL)
         # a prior cell equal to the loaded one would hide a stale cache: None = the fixed 7 x 8 x 9 cell at (1, 1, 1)
         prior = {'cell': None if pc == cell else pc, 'host': host, 'uses': draw(_S_USES_HOST if host else _S_USES)}
     return {'cell': cell, 'unit': draw(S_BOX_UNIT), 'enc': draw(S_ENC), 'ctor': ctor, 'prior': prior,
-            'pts': _nested(draw, [draw(_S_NPTS), 3], _S_REL), 'cfgW': w, 'cfgR': r}
+            'pts': _nested(draw, [draw(_S_NPTS), 3], _S_REL10), 'cm': draw(S_BOOL), 'cfgW': w, 'cfgR': r}
 
 
 # ----------------------------------------------------------------------------- atoms / systems
@@ -195,6 +394,9 @@ _REST_SHAPES = {  # per-atom shapes (rank 1-3 properties)
 }
 _S_REST = {k: st.sampled_from(v) for k, v in _REST_SHAPES.items()}
 _S_KIND = st.sampled_from('ffffiiss')
+PROP_FLOAT_DT = ('f4', 'f4', 'f2', '>f8')
+_S_POS_DT = st.sampled_from([None, None, None, 'f4', '>f8'])
+_S_ATYPE_DT = st.sampled_from([None, None, None, 'i1', 'u1', 'i4', 'u8', '>i4'])
 _S_NATOMS = st.sampled_from([1, 1, 2, 2, 3, 3, 4, 5, 6, 8])
 _S_NPROPS = st.sampled_from([0, 1, 1, 2, 2, 3, 4])
 _S_MASS = st.one_of(gens.nice(0.5, 250.0, 4), gens.nice(0.5, 250.0, 4), st.sampled_from([1.0, 27.0, 12.0]))
@@ -211,20 +413,29 @@ def _props(draw, natoms, scaled_ok):
         rest = draw(_S_REST[kind])
         shape = [natoms] + rest
         unit = None
+        dt = None
+        if kind != 's' and draw(_S_0_3) == 0:
+            dt = draw(_sf(PROP_FLOAT_DT if kind == 'f' else INT_DT))
         if kind == 'f':
             unit = draw(S_UNIT_OR_NONE)
             if scaled_ok and rest and rest[-1] == 3 and draw(_S_0_2) > 0:
                 unit = 'scaled'
+            if dt == 'f2' and unit not in (None, 'scaled'):
+                unit = None             # see value_cases
             if unit == 'scaled':
-                vals = _nested(draw, shape, _S_SREL)
+                vals = _nested(draw, shape, _S_SREL10)
+            elif dt in ('f2', 'f4') and draw(S_BOOL):
+                vals = _nested(draw, shape, _FD)
             else:
                 vals = _floats(draw, shape)
         elif kind == 'i':
             unit = draw(_sf((None, None, None, 'nm', 'eV',)))
-            vals = _nested(draw, shape, _I)
+            if dt == 'bool':
+                unit = None
+            vals = _nested(draw, shape, _int_dt(dt) if dt else _I)
         else:
             vals = _nested(draw, shape, _S)
-        props.append({'name': name, 'kind': kind, 'shape': shape, 'unit': unit, 'values': vals,
+        props.append({'name': name, 'kind': kind, 'shape': shape, 'unit': unit, 'values': vals, 'dtype': dt, 'ro': draw(S_BOOL),
                       'layout': draw(S_LAYOUT if rest else S_LAYOUT1)})
     return props
 
@@ -249,6 +460,8 @@ def atoms_cases(draw):
             sel = sel[:draw(_si(1, len(sel) - 1))]
     return {'natoms': n, 'atype': [draw(_si(1, ntypes)) for _ in range(n)],
             'pos': _nested(draw, [n, 3], _S_POS), 'pos_layout': draw(S_LAYOUT), 'atype_layout': draw(S_LAYOUT1),
+            'pos_dtype': draw(_S_POS_DT), 'atype_dtype': draw(_S_ATYPE_DT), 'ro': draw(S_BOOL),
+            'keep_kw': draw(_S_0_2) == 0, 'cm': draw(S_BOOL),
             'pos_unit': draw(S_LEN_UNIT_OR_NONE), 'props': props, 'select': sel,
             'how': draw(_sf(('prop_unit', 'prop_name',))), 'enc': draw(S_ENC), 'cfgW': w, 'cfgR': r}
 
@@ -295,8 +508,10 @@ def system_cases(draw):
     enc = draw(S_ENC)
     if route in ('dump_f', 'dump_path') and enc == 'dict':
         enc = 'xml'
-    case = {'cell': draw(_S_CELL), 'pbc': draw(gens.pbcs), 'natoms': n, 'atype': atype,
-            'rel': _nested(draw, [n, 3], _S_REL), 'pos_layout': draw(S_LAYOUT), 'atype_layout': draw(S_LAYOUT1),
+    case = {'cell': draw(_S_CELL10), 'pbc': draw(gens.pbcs), 'natoms': n, 'atype': atype,
+            'rel': _nested(draw, [n, 3], _S_REL10), 'pos_layout': draw(S_LAYOUT), 'atype_layout': draw(S_LAYOUT1),
+            'pos_dtype': draw(_S_POS_DT), 'atype_dtype': draw(_S_ATYPE_DT), 'ro': draw(S_BOOL),
+            'keep_kw': draw(_S_0_2) == 0, 'cm': draw(S_BOOL),
             'symbols': symbols, 'masses': masses,
             'pos_unit': draw(_sf((None, 'scaled', 'scaled', 'angstrom', 'nm', 'm',))),
             'box_unit': draw(_sf((None, 'angstrom', 'nm', 'm', 'aBohr',))),
@@ -317,6 +532,7 @@ _COUP = st.one_of(gens.nice(0.05, 0.12, 4), gens.nice(-0.12, -0.05, 4))
 _COUP0 = st.one_of(_COUP, _COUP, st.just(0.0))
 _TRI_OFF = st.one_of(gens.nice(0.05, 0.6, 3), gens.nice(-0.6, -0.05, 3), st.just(0.0))
 _EC_SCALE = st.sampled_from([1.0, 1.0, 30.0, 1e-3, 1e5])
+_PERT = gens.nice(-1.0, 1.0, 3)
 
 
 def ec_matrix(family, p):
@@ -369,6 +585,11 @@ def elastic_cases(draw):
              'C14': draw(_COUP), 'C15': draw(_COUP0), 'C16': draw(_COUP0)}
         C = [[x * s for x in row] for row in ec_matrix(fam, p)]
     w, r = draw(S_CFG_PAIR)
+    # class E: the tensor moved off its symmetry by 10**-e of its largest entry (symmetric perturbation, 21 numbers);
+    # class G: the same tensor with the Cartesian axes renamed (only judged without normalisation)
+    perturb = None
+    if draw(_S_0_3) == 0:
+        perturb = {'e': draw(_si(3, 12)), 'P': [draw(_PERT) for _ in range(21)]}
     return {'family': fam, 'Cij': C, 'normalize': draw(_sf(('family', 'family', 'triclinic', 'default',))),
-            'unit': draw(S_PRESSURE_OR_NONE),
+            'unit': draw(S_PRESSURE_OR_NONE), 'perturb': perturb, 'relabel': draw(_sf((0, 0, 0, 1, 2, 3, 4, 5,))), 'cm': draw(S_BOOL),
             'enc': draw(S_ENC), 'ctor': draw(S_BOOL), 'cfgW': w, 'cfgR': r}
